@@ -34,12 +34,17 @@ type solver struct {
 	dur       time.Duration
 	timeoutMS int
 	log       io.Writer
-	script    []string // everything sent since the last reset (for cross-checking)
+	script    []string // everything sent since the last reset
 	keep      bool
+	bin       string
+	fallback  string // non-empty: the last check-sat was answered by a one-shot run of this script
+	nfallback int
 }
 
-func newSolver(timeoutMS int) *solver {
-	bin := os.Getenv("SYMGO_SOLVER")
+func newSolver(timeoutMS int, bin string) *solver {
+	if bin == "" {
+		bin = os.Getenv("SYMGO_SOLVER")
+	}
 	if bin == "" {
 		bin = "z3"
 	}
@@ -50,7 +55,7 @@ func newSolver(timeoutMS int) *solver {
 	if err := cmd.Start(); err != nil {
 		panic(err)
 	}
-	s := &solver{cmd: cmd, in: in, out: bufio.NewReader(outp), timeoutMS: timeoutMS}
+	s := &solver{cmd: cmd, in: in, out: bufio.NewReader(outp), timeoutMS: timeoutMS, bin: bin, keep: true}
 	s.bw = bufio.NewWriterSize(in, 1<<16)
 	if p := os.Getenv("SYMGO_SMTLOG"); p != "" {
 		f, _ := os.Create(fmt.Sprintf("%s.%d", p, os.Getpid()))
@@ -97,8 +102,18 @@ func (s *solver) check() string {
 		panic(abortPath{"solver died: " + err.Error()})
 	}
 	s.queries++
-	s.dur += time.Since(t0)
 	line = strings.TrimSpace(line)
+	s.fallback = ""
+	if line == "unknown" || line == "timeout" {
+		// the incremental (push/pop) mode of the solver is much weaker than a
+		// one-shot run with full preprocessing: retry the same query one-shot
+		if r, script := s.oneShot(false, nil); r == "sat" || r == "unsat" {
+			line = r
+			s.fallback = script
+			s.nfallback++
+		}
+	}
+	s.dur += time.Since(t0)
 	switch line {
 	case "sat":
 		s.nsat++
@@ -114,8 +129,74 @@ func (s *solver) check() string {
 	return line
 }
 
+// flatScript resolves the push/pop structure of everything sent since the
+// last reset into one assertion stack.
+func (s *solver) flatScript() string {
+	var out []string
+	var marks []int
+	for _, l := range s.script {
+		switch strings.TrimSpace(l) {
+		case "(push)":
+			marks = append(marks, len(out))
+			continue
+		case "(pop)":
+			if len(marks) > 0 {
+				out = out[:marks[len(marks)-1]]
+				marks = marks[:len(marks)-1]
+			}
+			continue
+		case "(check-sat)":
+			continue
+		}
+		out = append(out, l)
+	}
+	return "(set-option :produce-models true)\n" + strings.Join(out, "\n") + "\n"
+}
+
+var oneShotSeq int
+
+// oneShot runs the current assertion stack in a fresh solver process.
+func (s *solver) oneShot(withValues bool, terms []string) (string, string) {
+	script := s.flatScript()
+	body := script + "(check-sat)\n"
+	if withValues {
+		body += "(get-value (" + strings.Join(terms, " ") + "))\n"
+	}
+	oneShotSeq++
+	p := fmt.Sprintf("%s/symgo-oneshot-%d-%d.smt2", os.TempDir(), os.Getpid(), oneShotSeq)
+	if err := os.WriteFile(p, []byte(body), 0o600); err != nil {
+		return "unknown", ""
+	}
+	defer os.Remove(p)
+	bin := s.bin
+	to := s.timeoutMS/1000 + 1
+	if to < 30 {
+		to = 30
+	}
+	out, _ := exec.Command(bin, fmt.Sprintf("-T:%d", to), p).CombinedOutput()
+	res := strings.TrimSpace(string(out))
+	if strings.Contains(res, "(error") {
+		return "unknown", ""
+	}
+	first := res
+	if i := strings.IndexByte(res, '\n'); i >= 0 {
+		first = strings.TrimSpace(res[:i])
+		if withValues {
+			return first, res[i+1:]
+		}
+	}
+	return first, script
+}
+
 // getValue returns the raw s-expression answer of (get-value (terms...)).
 func (s *solver) getValue(terms []string) string {
+	if s.fallback != "" {
+		r, vals := s.oneShot(true, terms)
+		if r != "sat" {
+			panic(abortPath{"solver: model extraction failed in one-shot fallback"})
+		}
+		return vals
+	}
 	s.raw("(get-value (" + strings.Join(terms, " ") + "))")
 	s.bw.Flush()
 	depth := 0
@@ -218,6 +299,7 @@ type Job struct {
 	TimeoutMS int               `json:"timeout_ms,omitempty"`
 	MaxSteps  int64             `json:"max_steps,omitempty"`
 	XCheck    bool              `json:"xcheck,omitempty"`
+	Solver    string            `json:"solver,omitempty"`
 	Fixed     map[string]uint64 `json:"fixed,omitempty"` // inputs forced to concrete values (debugging / translator validation)
 	Prefix    []Dec             `json:"prefix"`
 	Sample    bool              `json:"sample,omitempty"`
@@ -275,6 +357,8 @@ type explorer struct {
 	nondetMap bool
 	nondetMapMax int
 	nondetMapType string
+	selOrigin map[string]selOrig
+	ufApps    map[string]string
 	xcheck   bool
 
 	// worker-lifetime
@@ -319,6 +403,8 @@ func (e *explorer) resetPath(prefix []Dec) {
 	e.scripts = nil
 	e.nondetMap = false
 	e.nondetMapType = ""
+	e.selOrigin = map[string]selOrig{}
+	e.ufApps = map[string]string{}
 	e.newFuncs, e.newStubs = nil, nil
 	e.locks = map[*value]*lockState{}
 	e.ghost = map[string]value{}
@@ -358,7 +444,7 @@ func (e *explorer) fresh(name string, w int, signed bool) value {
 
 // mk builds a symbolic value, naming large terms so that term strings stay small.
 func mk(t string, w int, signed bool) sym {
-	if len(t) > 160 && ex != nil {
+	if len(t) > 72 && ex != nil {
 		ex.ndefs++
 		n := fmt.Sprintf("|t!%d|", ex.ndefs)
 		sort := "Bool"
@@ -635,10 +721,12 @@ type Worker struct {
 	exp     *explorer
 	lastFn  string
 	lastOvr string
+	solvers    map[string]*solver
+	solverName string
 }
 
 func NewWorker(mainpkg *ssa.Package) *Worker {
-	e := &explorer{sol: newSolver(20000), seenFuncs: map[string]bool{}, seenStubs: map[string]bool{}}
+	e := &explorer{sol: newSolver(20000, ""), seenFuncs: map[string]bool{}, seenStubs: map[string]bool{}}
 	e.modPrefix = "github.com/wneessen/go-mail"
 	e.maxSteps = 50000000
 	e.maxConc = 4096
@@ -679,6 +767,20 @@ func (w *Worker) configure(job Job) (*ssa.Function, string) {
 	}
 	e.params = job.Params
 	e.fixed = job.Fixed
+	if job.Solver != w.solverName {
+		// switch the solver process (kept per name for the worker's lifetime)
+		if w.solvers == nil {
+			w.solvers = map[string]*solver{w.solverName: e.sol}
+		}
+		sv := w.solvers[job.Solver]
+		if sv == nil {
+			sv = newSolver(e.sol.timeoutMS, job.Solver)
+			w.solvers[job.Solver] = sv
+		}
+		sv.queries, sv.nsat, sv.nunsat, sv.nunknown, sv.dur = e.sol.queries, e.sol.nsat, e.sol.nunsat, e.sol.nunknown, e.sol.dur
+		e.sol = sv
+		w.solverName = job.Solver
+	}
 	if job.TimeoutMS > 0 {
 		e.sol.timeoutMS = job.TimeoutMS
 	}
@@ -686,7 +788,7 @@ func (w *Worker) configure(job Job) (*ssa.Function, string) {
 		e.maxSteps = job.MaxSteps
 	}
 	e.xcheck = job.XCheck
-	e.sol.keep = job.XCheck
+	e.sol.keep = true
 	return fn, ""
 }
 
@@ -1051,7 +1153,10 @@ func intrinsic(name string) externalFn {
 }
 
 // svUF(tag string, outLen int, parts ...[]byte) []byte : an uninterpreted
-// function from the concatenation of (length-prefixed) parts to outLen bytes.
+// function from the parts (their lengths are part of the function's name) to
+// outLen bytes. Arguments are concatenated into one wide bit-vector and the
+// result is one wide bit-vector whose bytes are extracted, so an application
+// is a single term; functional congruence is all the solver knows about it.
 func svUF(fr *frame, args []value) value {
 	tag := strArg(args[0])
 	outLen := int(asInt64(args[1]))
@@ -1062,35 +1167,46 @@ func svUF(fr *frame, args []value) value {
 		shape += fmt.Sprintf("_%d", len(c))
 		in = append(in, c...)
 	}
-	allConcrete := !anySym(in)
-	_ = allConcrete
 	out := make([]value, outLen)
-	fname := fmt.Sprintf("UF_%s%s", tag, shape)
+	fname := fmt.Sprintf("|UF_%s%s_%d|", tag, shape, outLen)
 	key := "ufdecl:" + fname
+	ow := outLen * 8
 	if _, ok := ex.ghost[key]; !ok {
 		ex.ghost[key] = true
-		var dom []string
-		for range in {
-			dom = append(dom, "(_ BitVec 8)")
-		}
-		for j := 0; j < outLen; j++ {
-			if len(dom) == 0 {
-				ex.sol.send(fmt.Sprintf("(declare-const |%s!%d| (_ BitVec 8))", fname, j))
-			} else {
-				ex.sol.send(fmt.Sprintf("(declare-fun |%s!%d| (%s) (_ BitVec 8))", fname, j, strings.Join(dom, " ")))
-			}
+		if len(in) == 0 {
+			ex.sol.send(fmt.Sprintf("(declare-const %s (_ BitVec %d))", fname, ow))
+		} else {
+			ex.sol.send(fmt.Sprintf("(declare-fun %s ((_ BitVec %d)) (_ BitVec %d))", fname, len(in)*8, ow))
 		}
 	}
-	var argt []string
-	for _, c := range in {
-		argt = append(argt, toSym(c).t)
+	app := fname
+	if len(in) > 0 {
+		var sb strings.Builder
+		if len(in) == 1 {
+			sb.WriteString(toSym(in[0]).t)
+		} else {
+			sb.WriteString("(concat")
+			for _, c := range in {
+				sb.WriteByte(' ')
+				sb.WriteString(toSym(c).t)
+			}
+			sb.WriteByte(')')
+		}
+		ak := fname + " " + sb.String()
+		if an, ok := ex.ufApps[ak]; ok {
+			app = an // same function, syntactically identical arguments: same term
+		} else {
+			ex.ndefs++
+			an := fmt.Sprintf("|ufa!%d|", ex.ndefs)
+			ex.sol.send(fmt.Sprintf("(define-fun %s () (_ BitVec %d) (%s %s))", an, ow, fname, sb.String()))
+			ex.defs[an] = sb.String()
+			ex.ufApps[ak] = an
+			app = an
+		}
 	}
 	for j := 0; j < outLen; j++ {
-		if len(argt) == 0 {
-			out[j] = sym{fmt.Sprintf("|%s!%d|", fname, j), 8, false}
-		} else {
-			out[j] = mk(fmt.Sprintf("(|%s!%d| %s)", fname, j, strings.Join(argt, " ")), 8, false)
-		}
+		hi := ow - 1 - 8*j
+		out[j] = sym{fmt.Sprintf("((_ extract %d %d) %s)", hi, hi-7, app), 8, false}
 	}
 	return out
 }
